@@ -81,7 +81,10 @@ def socket_table(exp):
             socks[q["c"]].append(a)
         if b not in socks[q["r"]]:
             socks[q["r"]].append(b)
-    # a local socket id must name one remote end only
+    # in the random experiments a local socket id names one remote end only: when one id serves two neighbours whose requests are in flight at
+    # the same time the receiving queue (keyed by the socket id alone) is shared, and what the i-th poll returns depends on the arrival order
+    # (Qasm/EprKeyed.v: C08_shared_queue_unfiltered_refuted).  One id for several neighbours with ONE request in flight at a time (the layout
+    # of netqasm's repeater examples) is exercised by shared_socket_id_experiment below.
     for i, l in socks.items():
         ids = [x[1] for x in l]
         if len(set(ids)) != len(ids):
@@ -362,6 +365,84 @@ def occupied_address_experiment(env, variant, pb, order):
     return P
 
 
+def shared_socket_id_experiment(env, order, pb):
+    """a repeater R uses ONE local socket id (0, the SDK default) towards both neighbours A and B; towards A the REMOTE socket id is 1, towards B it
+    is 0.  One request at a time: A creates a pair with R; B creates a pair with R; R creates a pair with A (must arrive on A's socket 1); R
+    creates a pair with B.  Every pair must be an isolated |Phi+> pair at the right addresses and every record must name the right peer."""
+    from netqasm.backend.messages import InitNewAppMessage, OpenEPRSocketMessage
+    from netqasm.sdk.shared_memory import SharedMemoryManager
+    SharedMemoryManager.reset_memories()
+    env.clock.stopped = False
+    names = list(order)
+    if pb:
+        import net_pb
+        net = net_pb.make_pb_network(env, names, [12] * 3, [12] * 3)
+    else:
+        net = N.make_network(env, names, [12] * 3, [12] * 3)
+    Q.make_hosts(env, net, pb_local=pb)
+    ids = Q.node_ids(names)
+    A, R, B = 0, 1, 2
+    idA, idR, idB = ids[names[A]], ids[names[R]], ids[names[B]]
+    P = []
+
+    def pump(pend, what, rounds=400):
+        for _ in range(rounds):
+            if pb:
+                import net_pb
+                net_pb.flush(net)
+            if all(p.done for p in pend):
+                return True
+            calls = env.clock.getDelayedCalls()
+            if calls:
+                env.clock.advance(max(min(c.getTime() for c in calls) - env.clock.seconds(), 0.0) + 1e-6)
+        P.append({"kind": "hang", "what": "shared-socket-id experiment (names %r): %s did not complete" % (names, what)})
+        return False
+
+    def go(node, msg, what):
+        p = EP.start(net.hosts[node], msg)
+        return p if pump([p], what) else None
+    Q.script_coins(env, [1, 0, 0, 1] * 16, len(env.tap))
+    for node in (A, R, B):
+        if go(node, InitNewAppMessage(app_id=0, max_qubits=10), "InitNewApp") is None:
+            return P
+    for node, s_, rid, rs in [(A, 1, idR, 0), (B, 0, idR, 0), (R, 0, idA, 1), (R, 0, idB, 0)]:
+        if go(node, OpenEPRSocketMessage(app_id=0, epr_socket_id=s_, remote_node_id=rid, remote_epr_socket_id=rs, min_fidelity=100), "OpenEPRSocket") is None:
+            return P
+    steps = [("A creates with R", (A, idR, 1, 0, 0), (R, idA, 0, 0, 0)), ("B creates with R", (B, idR, 0, 0, 0), (R, idB, 0, 1, 3)),
+             ("R creates with A", (R, idA, 0, 2, 6), (A, idR, 1, 1, 3)), ("R creates with B", (R, idB, 0, 3, 9), (B, idR, 0, 1, 3))]
+    pairs = []
+    for what, (cn, crem, csock, cq, cbase), (rn, rrem, rsock, rq, rbase) in steps:
+        pr = EP.start(net.hosts[rn], _text_msg(_recv_keep(rrem, rsock, rq, rbase)))
+        pc = EP.start(net.hosts[cn], _text_msg(_create_keep(crem, csock, cq, cbase)))
+        if not pump([pr, pc], what):
+            return P
+        pairs.append((what, (cn, cq), (rn, rq)))
+        ca = list(net.hosts[cn].executor._app_arrays[0][cbase + 2, :])
+        ra = list(net.hosts[rn].executor._app_arrays[0][rbase + 1, :])
+        want_c, want_r = ids[names[rn]], ids[names[cn]]
+        # K record: type, create_id, logical_qubit_id, directionality_flag, sequence_number, purpose_id, remote_node_id, ...
+        if None in ca or None in ra or ca[6] != want_c or ra[6] != want_r or ca[4] != ra[4] or (ca[3], ra[3]) != (0, 1):
+            P.append({"kind": "pairing", "what": "shared-socket-id experiment (names %r), %s: creator record %r, receiver record %r (remote node ids must be %d / %d, "
+                      "equal sequence numbers, directionality 0 / 1)" % (names, what, ca, ra, want_c, want_r)})
+    Q.script_coins(env, None, 0)
+
+    def virt(node, addr):
+        h = net.hosts[node]
+        try:
+            return N.resolve(net, h.factory.qubitList[h.executor._get_position(app_id=0, address=addr)].virt)
+        except Exception as e:               # noqa: BLE001
+            P.append({"kind": "delivery", "what": "shared-socket-id experiment: node %s has no qubit at virtual address %d (%s)" % (names[node], addr, type(e).__name__)})
+            return None
+    for what, (cn, cq), (rn, rq) in pairs:
+        q1, q2 = virt(cn, cq), virt(rn, rq)
+        if q1 is None or q2 is None:
+            continue
+        rho = EP.pair_state(net, q1, q2)
+        if rho is None or not O_close(rho, EP.PHI):
+            P.append({"kind": "state", "what": "shared-socket-id experiment (names %r), %s: the delivered qubits are not an isolated |Phi+> pair" % (names, what)})
+    return P
+
+
 def O_close(a, b):
     import numpy as np
     return a.shape == b.shape and np.allclose(a, b, atol=1e-8)
@@ -452,6 +533,14 @@ def run(ctx, only_extra=False):
                 ctx.case(("occupied-address", variant, tuple(order), pb), nontrivial=True)
                 if ps:
                     occ.append((variant, order, pb, ps))
+        for order, pb in ((["Na", "Nb", "Nc"], False), (["Nc", "Nb", "Na"], False), (["Nb", "Na", "Nc"], True)):
+            if hung:
+                break
+            ps = shared_socket_id_experiment(env, order, pb)
+            ctx.count("shared_socket_id_experiments")
+            ctx.case(("shared-socket-id", tuple(order), pb), nontrivial=True)
+            if ps:
+                occ.append((9, order, pb, ps))
     # measure-directly pairs, message by message against the N-host model (harness/qasm_eprfail.py, Qasm/EprCases.v): one request of one
     # pair with the creator's two basis choices forced through the seeded generator, all nine pairs of bases
     import qasm_eprfail as F
@@ -523,7 +612,7 @@ def run(ctx, only_extra=False):
             else:
                 ctx.broken_explained_by_known = True
     ctx.obligation("oracle: a delivery into an occupied virtual address stays pending until the address is freed; requests handled meanwhile and the pending one "
-                   "all end as isolated |Phi+> pairs at the right addresses (3 variants x 3 configuration orders)", not occ,
+                   "all end as isolated |Phi+> pairs at the right addresses (3 variants x 3 configuration orders); one socket id towards two neighbours, one request at a time (3 orders)", not occ,
                    occ[0][3][0]["what"] if occ else "")
     for variant, order, pb, ps in occ[:1]:
         key = "C08:occupied-address-" + ps[0]["kind"]
